@@ -214,8 +214,10 @@ pub enum Stmt {
     /// `-> t ->`
     Tunnel(String, Vec<Expr>),
     /// `<- t`
-    Thread(String),
+    Thread(String, Vec<Expr>),
     TunnelReturn,
+    /// `->-> target(args)`: leave the tunnel and go on to `target` instead of returning
+    TunnelOnwards(String, Vec<Expr>),
     Done,
     End,
     Return(Option<Expr>),
@@ -361,8 +363,9 @@ fn print_stmt(out: &mut String, s: &Stmt, indent: usize) {
         )),
         Stmt::Divert(t, args) => out.push_str(&format!("{i}-> {t}{}\n", args_str(args))),
         Stmt::Tunnel(t, args) => out.push_str(&format!("{i}-> {t}{} ->\n", args_str(args))),
-        Stmt::Thread(t) => out.push_str(&format!("{i}<- {t}\n")),
+        Stmt::Thread(t, args) => out.push_str(&format!("{i}<- {t}{}\n", args_str(args))),
         Stmt::TunnelReturn => out.push_str(&format!("{i}->->\n")),
+        Stmt::TunnelOnwards(t, args) => out.push_str(&format!("{i}->-> {t}{}\n", args_str(args))),
         Stmt::Done => out.push_str(&format!("{i}-> DONE\n")),
         Stmt::End => out.push_str(&format!("{i}-> END\n")),
         Stmt::Return(None) => out.push_str(&format!("{i}~ return\n")),
@@ -628,8 +631,14 @@ impl Program {
                     Stmt::Tunnel(_, _) => {
                         f.insert("tunnel");
                     }
-                    Stmt::Thread(_) => {
+                    Stmt::Thread(_, a) => {
+                        if !a.is_empty() {
+                            f.insert("thread_args");
+                        }
                         f.insert("thread");
+                    }
+                    Stmt::TunnelOnwards(_, _) => {
+                        f.insert("tunnel_onwards");
                     }
                     Stmt::If(br, e) => {
                         f.insert("block_conditional");
